@@ -275,12 +275,16 @@ class MultiName(object):
     def __init__(self, names):
         # type: (list[Name | UndefinedName]) -> None
         allnames = []
+        seen = set()  # type: set[t.Any]
         for n in names:
-            if isinstance(n, MultiName):
-                allnames.extend(n.alt_names)
-            else:
-                allnames.append(n)
-        self.alt_names = list(set(allnames))
+            for alt in (n.alt_names if isinstance(n, MultiName) else [n]):
+                if alt not in seen:
+                    seen.add(alt)
+                    allnames.append(alt)
+        # alternatives in source order, "undefined" first: the order must not
+        # depend on object addresses or the hash seed
+        allnames.sort(key=lambda alt: (getattr(alt, 'declared_at', None) or alt.location, alt.location))
+        self.alt_names = allnames
         self.name = self.alt_names[0].name
 
     def __repr__(self):  # type: () -> str
